@@ -139,10 +139,16 @@ def state(vc):
         rec = _NS(eci=list(eci), julian_date=float(j1))
         want_t = (float(j1) - float(j0)) * 86400
         for name, C in (("target", TargetAgent), ("sensor", SensingAgent)):
-            a = object.__new__(C)
-            a.__dict__.update(julian_date_start=j0, datetime_start=start, _truth_state=None, _time=ScenarioTime(0.0))
+            # (vc.new: built without __init__, with the fields __init__ sets to a literal - caches, counters - available as __init__ leaves them)
+            a = vc.new((TA + "TargetAgent") if C is TargetAgent else (SA + "SensingAgent"), julian_date_start=j0, datetime_start=start, _truth_state=None, _time=ScenarioTime(0.0))
+            # history: the agent imported the record of the previous step (another state, an earlier epoch) and was asked for its epoch before this one arrives
+            earlier = _NS(eci=list(np.asarray(eci)[::-1] * 0.5), julian_date=float(j1) - 300.0 / 86400)
+            if earlier.julian_date > float(j0):
+                a.importState(earlier)
+                a.datetime_epoch
             a.importState(rec)
             ok = bool(np.array_equal(a.eci_state, eci)) and abs(float(a._time) - want_t) < 5e-5
+            ok = ok and abs((a.datetime_epoch - start).total_seconds() - want_t) <= 0.5   # the epoch the agent reports is the record's (whole-second datetime)
             if C is SensingAgent:
                 # the sensing agent converts its state to Earth-fixed / geodetic coordinates eagerly: at the RECORD's epoch, not the one it had before the import
                 from resonaate.physics.transforms.methods import eci2ecef
@@ -356,3 +362,47 @@ def realtime_flag(vc):
     out, got = run(SA, "SensingAgent", "sen_cfg", {"sensorFactory": lambda c: ("SENSOR", c)})
     vc.ensure("O-C19-flag.sensor", out == "AGENT" and got["realtime"] is s_rt and got["_id"] == 42 and got["dynamics"] == "DYN" and got["clock"] is clock
               and got["initial_state"] == ("ECI", "EPOCH") and got["sensors"] == ("SENSOR", "SENSORCFG"))
+
+
+@obligation("C19", "obs_query_bounded", ensures=["B-C19-obs-query.every-epoch", "B-C19-obs-query.only-that-epoch"],
+            fns=[CE + "CentralizedTaskingEngine.loadImportedObservations", "resonaate.data.data_interface:DataInterface.getData"], mode="Z", native_only=True, samples=40,
+            bounded="BOUNDED stand-in, not a proof: 40 (quick) / 400 (thorough) sampled (start instant, step, number of epochs) triples per run against a real in-memory SQLite database "
+                    "written the way a run writes it (epoch rows: the clock's Julian date and the ISO timestamp; observation rows keyed by that Julian date); what SQLAlchemy/SQLite do "
+                    "with the query is outside any contract (the symbolic `obs` harness fixes which query is built)",
+            note="for ANY start instant (not only noon/midnight, where the Julian date of a datetime and the clock's Julian date agree bit for bit) the real query of "
+                 "loadImportedObservations returns, at every epoch of the run, exactly the observations stored for that epoch")
+def obs_query_bounded(vc):
+    import datetime
+    from resonaate.data.resonaate_database import ResonaateDatabase
+    from resonaate.data.agent import AgentModel
+    from resonaate.data.epoch import Epoch
+    from resonaate.data.observation import Observation
+    from resonaate.physics.time.stardate import ScenarioTime, datetimeToJulianDate
+    from resonaate.tasking.engine.centralized_engine import CentralizedTaskingEngine
+    start = datetime.datetime(2019, 1, 1) + datetime.timedelta(seconds=vc.int("start_offset_s", 0, 86400 * 1000))
+    dt = [1, 7, 30, 60, 300, 3600][vc.int("step_choice", 0, 5)]
+    n = vc.int("epochs", 2, 12)
+    jd0 = datetimeToJulianDate(start)
+    db = ResonaateDatabase(db_path="sqlite://")
+    db.insertData(AgentModel(unique_id=11, name="tgt"), AgentModel(unique_id=22, name="sen"))
+    jds = []
+    for k in range(n + 1):
+        jd = ScenarioTime(float(k * dt)).convertToJulianDate(jd0)   # the clock's own expression (ScenarioClock.julian_date_epoch)
+        when = start + datetime.timedelta(seconds=k * dt)
+        jds.append((float(jd), when))
+        db.insertData(Epoch(julian_date=float(jd), timestampISO=when.isoformat(timespec="microseconds")))
+    from resonaate.physics.measurements import Measurement
+    meas = Measurement.fromMeasurementLabels(["azimuth_rad", "elevation_rad"], np.eye(2) * 1e-8)
+    for k, (jd, when) in enumerate(jds):
+        db.insertData(Observation(julian_date=jd, target_id=11, sensor_id=22, sensor_type="Optical", sensor_eci=np.array([7000.0 + k, 1.0, 2.0, 0.0, 7.5, 0.0]), measurement=meas,
+                                  azimuth_rad=0.1 * k, elevation_rad=0.2))
+    eng = object.__new__(CentralizedTaskingEngine)
+    eng.__dict__.update(_importer_db=db, logger=_NS(warning=lambda *a: None, debug=lambda *a: None, info=lambda *a: None, error=lambda *a: None))
+    eng._attachObsMetadata = lambda obs: obs
+    ok_all, ok_only = True, True
+    for k, (jd, when) in enumerate(jds):
+        got = eng.loadImportedObservations(when)
+        ok_all = ok_all and len(got) >= 1 and any(abs(o.azimuth_rad - 0.1 * k) < 1e-12 for o in got)
+        ok_only = ok_only and all(abs(o.azimuth_rad - 0.1 * k) < 1e-12 for o in got)
+    vc.ensure("B-C19-obs-query.every-epoch", ok_all)
+    vc.ensure("B-C19-obs-query.only-that-epoch", ok_only)
